@@ -65,7 +65,7 @@ static int iterConv(MPT_INTERFACE(convertable) *conv, MPT_TYPE(type) type, void 
 		if (ret < 0) {
 			return ret;
 		}
-		return 's';
+		return ret ? 's' : 0;
 	}
 	return 0;
 }
